@@ -1,6 +1,6 @@
 (* C13 — an expression means the same in every position, alias, spelling and cache size.
    Table facts tied to the source (the parse/show theorems are added from Proofs/ExprParseProofs.v). *)
-From Jawk Require Import Base Json Reader Ctx Printer Fn Expr Chain ExprParser Go TableProofs.
+From Jawk Require Import Base Json Reader JsonParser Ctx Printer Fn Expr Chain ExprParser Go Render ShowExpr ReaderLemmas ParserProofs ExprParseProofs TableProofs.
 
 (* every option position uses the same expression reader and the same evaluator: in the model by construction
    (parse_whole / parse_selection / parse_sorter / parse_preset all call read_getter; every stage calls get) *)
@@ -20,3 +20,111 @@ Proof. exact fn_table_known. Qed.
 Theorem C13_table_counts : length Gen.FnTable.fn_table = 192%nat /\ Gen.FnTable.fn_count = 111%N.
 Proof. exact fn_table_counts. Qed.
 Print Assumptions C13_table_known.
+
+(* for every well-formed spelling tree x of an expression (any alias, any run of blanks and commas between arguments, the leading-dot sugar, any JSON spelling of literals) the reader returns exactly expr_of x and leaves what follows untouched *)
+Theorem C13_read_getter_show :
+  forall (fuel : nat) (x : sexpr) (e : expr) (w tl : list byte) (r : reader),
+    xwf x ->
+    expr_of x = Some e ->
+    xfollow x tl ->
+    Render.ws_ok w ->
+    rd_ok r ->
+    view r = w ++ show x ++ tl ->
+    2 * length (view r) < fuel ->
+    exists r' : reader,
+      read_getter fuel r = (Some e, r') /\ view r' = tl /\ rd_ok r' /\ cur r' = hd_error tl.
+Proof. exact read_getter_show. Qed.
+Print Assumptions C13_read_getter_show.
+
+(* --filter / --split-by / --group-by *)
+Theorem C13_parse_whole_show :
+  forall (x : sexpr) (e : expr) (w w' : list byte),
+    xwf x -> expr_of x = Some e -> Render.ws_ok w -> Render.ws_ok w' -> parse_whole (w ++ show x ++ w') = Some e.
+Proof. exact parse_whole_show. Qed.
+Print Assumptions C13_parse_whole_show.
+
+(* --select *)
+Theorem C13_parse_selection_show :
+  forall (x : sexpr) (e : expr) (w w' : list byte) (s : str),
+    xwf x ->
+    expr_of x = Some e ->
+    Render.ws_ok w ->
+    Render.ws_ok w' ->
+    utf8_decode (w ++ show x ++ w') = Some s -> parse_selection (w ++ show x ++ w') = Some (e, s).
+Proof. exact parse_selection_show. Qed.
+Print Assumptions C13_parse_selection_show.
+
+(* --sort-by with the documented direction suffixes in any letter case *)
+Theorem C13_parse_sorter_show :
+  forall (x : sexpr) (e : expr) (w tl : list byte) (dir : direction),
+    xwf x ->
+    expr_of x = Some e -> Render.ws_ok w -> dir_suffix tl dir -> parse_sorter (w ++ show x ++ tl) = Some (e, dir).
+Proof. exact parse_sorter_show. Qed.
+Print Assumptions C13_parse_sorter_show.
+
+(* whichever alias of a function is used *)
+Theorem C13_alias_same_expr :
+  forall (n1 n2 : list byte) (dot : bool) (args : list (pad * sexpr)) (close : pad)
+      (c : list byte) (mn1 : N) (mx1 : option N) (mn2 : N) (mx2 : option N),
+    find_function n1 fn_table = Some (c, mn1, mx1) ->
+    find_function n2 fn_table = Some (c, mn2, mx2) ->
+    expr_of (XCall n1 dot args close) = expr_of (XCall n2 dot args close).
+Proof. exact alias_same_expr. Qed.
+Print Assumptions C13_alias_same_expr.
+
+(* whether arguments are separated by spaces or commas *)
+Theorem C13_separators_same_expr :
+  forall (name : list byte) (dot : bool) (args args' : list (pad * sexpr)) (close close' : pad),
+    Forall2 (fun a b : pad * sexpr => expr_of (snd a) = expr_of (snd b)) args args' ->
+    expr_of (XCall name dot args close) = expr_of (XCall name dot args' close').
+Proof. exact separators_same_expr. Qed.
+Print Assumptions C13_separators_same_expr.
+
+(* whether (.f x) or (f . x) is written *)
+Theorem C13_dot_sugar_same_expr :
+  forall (name : list byte) (args : list (pad * sexpr)) (close s : pad) (h : bool) (close' : pad),
+    expr_of (XCall name true args close) =
+    expr_of (XCall name false ((s, XExtract 0 (PRoot h)) :: args) close').
+Proof. exact dot_sugar_same_expr. Qed.
+Print Assumptions C13_dot_sugar_same_expr.
+
+Theorem C13_same_tree_same_reading :
+  forall (x y : sexpr) (e : expr) (fuel fuel' : nat) (w w' tl tl' : list byte) (r r' : reader),
+    xwf x ->
+    xwf y ->
+    expr_of x = Some e ->
+    expr_of y = expr_of x ->
+    xfollow x tl ->
+    xfollow y tl' ->
+    Render.ws_ok w ->
+    Render.ws_ok w' ->
+    rd_ok r ->
+    rd_ok r' ->
+    view r = w ++ show x ++ tl ->
+    view r' = w' ++ show y ++ tl' ->
+    2 * length (view r) < fuel ->
+    2 * length (view r') < fuel' ->
+    fst (read_getter fuel r) = Some e /\ fst (read_getter fuel' r') = Some e.
+Proof. exact same_tree_same_reading. Qed.
+Print Assumptions C13_same_tree_same_reading.
+
+(* the 192 names and aliases of the table generated from the source are pairwise distinct *)
+Theorem C13_fn_names_nodup :
+  NoDup (map e_name fn_table).
+Proof. exact fn_names_nodup. Qed.
+Print Assumptions C13_fn_names_nodup.
+
+Theorem C13_alias_resolves :
+  forall e : list N * list N * N * option N,
+    In e fn_table -> find_function (e_name e) fn_table = Some (e_canon e, e_min e, e_max e).
+Proof. exact alias_resolves. Qed.
+Print Assumptions C13_alias_resolves.
+
+Theorem C13_canonical_known :
+  forallb
+      (fun e : entry => match fn_of_canonical (e_canon e) with
+                        | FUnknown _ => false
+                        | _ => true
+                        end) fn_table = true.
+Proof. exact canonical_known. Qed.
+Print Assumptions C13_canonical_known.
